@@ -255,6 +255,20 @@ Definition wf_init (s : state) : bool :=
   nodupb (map c_sess (st_clients s)) &&
   forallb (fun c => (c_sess c <? st_next s) && is_idle (c_pc c) && pm_nodup (c_pmap c)) (st_clients s).
 
+(** * What the property says about one ZooKeeper call *)
+(** a set/delete finds the node owned by the caller's own session (and therefore succeeds); a successful
+    create makes a node owned by the caller's session where there was none; a set does not change the owner *)
+Definition safe_obs (o : obs) : Prop :=
+  (mutating (o_op o) = true -> o_ok o = true /\ o_owner o = Some (o_sess o)) /\
+  (o_op o = OCreate -> o_ok o = true -> o_owner o = None /\ o_owner_after o = Some (o_sess o)) /\
+  (o_op o = OSet -> o_owner_after o = o_owner o).
+(** every call made while processing on_delete_request rid is on a path that the service's map registers for
+    rid; deletes are issued only by delete requests, creates and sets only by create requests *)
+Definition reg_obs (o : obs) : Prop :=
+  (o_is_delete_req o = true -> o_reg o = Some (o_rid o)) /\
+  (o_op o = ODelete -> o_is_delete_req o = true) /\
+  (o_op o = OSet \/ o_op o = OCreate -> o_is_delete_req o = false).
+
 (** * Correspondence: flattened observables *)
 Definition zb (b : bool) : Z := if b then 1 else 0.
 Definition zop_code (o : zop) : Z :=
